@@ -1,12 +1,13 @@
 package main
 
 import (
+	"bytes"
+	"strings"
+	depapp "github.com/modernizing/coca/analysis/dep/app"
 	"fmt"
 	"os"
 	"path/filepath"
 
-	"github.com/modernizing/coca/pkg/adapter/cocafile"
-	"github.com/modernizing/coca/pkg/application/analysis/javaapp"
 	"github.com/modernizing/coca/pkg/application/deps"
 	"github.com/modernizing/coca/pkg/domain/core_domain"
 )
@@ -70,14 +71,29 @@ func init() {
 					panic("scratch: " + err.Error())
 				}
 			}
-			// same steps as analysis/dep/app/dep_analysis.go (cmd "deps")
-			path, _ := filepath.Abs(dir)
-			files := cocafile.GetFilesWithFilter(path, cocafile.JavaFileFilter)
-			identifierApp := javaapp.NewJavaIdentifierApp()
-			iNodes := identifierApp.AnalysisFiles(files)
-			callApp := javaapp.NewJavaFullApp()
-			classNodes := callApp.AnalysisFiles(iNodes, files)
-			return c19Deps(deps.NewDepApp().AnalysisPath(path, classNodes))
+			// the sub-command itself (analysis/dep/app, `deps -p DIR`): its table is the observation point
+			var buf bytes.Buffer
+			cmd := depapp.NewRootCmd(&buf)
+			cmd.SetArgs([]string{"deps", "-p", dir})
+			if err := cmd.Execute(); err != nil {
+				return L(A("!ERR"), A(err.Error()))
+			}
+			rows := []Sx{}
+			for _, line := range strings.Split(buf.String(), "\n") {
+				line = strings.TrimSpace(line)
+				if !strings.HasPrefix(line, "|") || strings.HasPrefix(line, "|-") {
+					continue
+				}
+				cells := strings.Split(strings.Trim(line, "|"), "|")
+				if len(cells) != 3 {
+					return L(A("!ERR"), A("unexpected table row: "+line))
+				}
+				if strings.TrimSpace(cells[0]) == "GROUPID" && strings.TrimSpace(cells[1]) == "ARTIFACTID" {
+					continue // the header
+				}
+				rows = append(rows, L(A(strings.TrimSpace(cells[0])), A(strings.TrimSpace(cells[1])), A(strings.TrimSpace(cells[2]))))
+			}
+			return L(rows...)
 		}
 		return L(A("!ERR"), A("unknown C19 kind"))
 	})
